@@ -123,8 +123,13 @@ class EthAddr (_AddrBase):
         else:
           # Assume it's hex digits but they may not all be in two-digit
           # groupings (e.g., xx:x:x:xx:x:x). This actually comes up.
+          if not all(re.fullmatch(b'[0-9a-fA-F]{1,2}', x)
+                     for x in addr.split(b":")):
+            raise RuntimeError("Bad format for ethernet address")
           addr = b''.join([b"%02x" % (int(x,16),) for x in addr.split(b":")])
         # We should now have 12 hex digits (xxxxxxxxxxxx).
+        if not re.fullmatch(b'[0-9a-fA-F]{12}', addr):
+          raise RuntimeError("Bad format for ethernet address")
         # Convert to 6 raw bytes.
         addr = bytes(int(addr[x*2:x*2+2], 16) for x in range(0,6))
       else:
